@@ -395,6 +395,10 @@ def worker(case: Dict[str, Any]) -> CaseResult:
     rng = random.Random(case["seed"] * 43 + case["idx"])
     with core.Scratch() as root:
         cfg = write_case(root, sdl, None, cfg_full, extra_files=extra_files)
+        if case["idx"] % 3 == 0:
+            # something was generated in this interpreter before: the same inputs with nothing configured
+            from ..genpkg import decoy_generations
+            stats["decoy_generations_before"] = decoy_generations(root, sdl, None, config={"enable_custom_operations": True})
         with warnings.catch_warnings():
             warnings.simplefilter("ignore")
             gen = run_cli(root, "client", cfg)
